@@ -580,6 +580,40 @@ def session_many(rng, n):
     return list(s.variables), list(s.constraints), "many-variables"
 
 
+def session_pairs(k):
+    """Deterministic sessions: every integer operator nested directly in every other (both operand positions), likewise the
+    Boolean operators and the comparisons -- so that a printer that confuses two adjacent operators is seen whatever the
+    random sessions of the run happen to contain.  `k` selects a slice."""
+    from cspuz import Solver
+    s = Solver()
+    a, b = s.bool_var(), s.bool_var()
+    x, y = s.int_var(-2, 2), s.int_var(-1, 3)
+    iforms = [lambda p, q: -p, lambda p, q: p + q, lambda p, q: p - q, lambda p, q: q - p, lambda p, q: a.cond(p, q), lambda p, q: 1 - p,
+              lambda p, q: p + 2]
+    bforms = [lambda p, q: ~p, lambda p, q: p & q, lambda p, q: p | q, lambda p, q: p == q, lambda p, q: p != q, lambda p, q: p ^ q,
+              lambda p, q: p.then(q)]
+    cmps = [lambda p, q: p == q, lambda p, q: p != q, lambda p, q: p < q, lambda p, q: p <= q, lambda p, q: p > q, lambda p, q: p >= q]
+    cs = []
+    for f in iforms:
+        for g in iforms:
+            cs.append(f(g(x, y), y) == g(f(y, x), x))
+            cs.append(f(x, g(y, x)) <= 1)
+    for f in bforms:
+        for g in bforms:
+            cs.append(f(g(a, b), b) | g(b, f(b, a)))
+    for c in cmps:
+        for g in iforms:
+            cs.append(c(g(x, y), g(y, x)) | a)
+    n = 12
+    chunk = cs[(k * n) % len(cs):(k * n) % len(cs) + n]
+    for c in chunk:
+        s.ensure(c)
+    return list(s.variables), list(s.constraints), "operator-pairs"
+
+
+N_PAIR_SESSIONS = 16
+
+
 def gen_case(rng):
     r = rng.random()
     if r < 0.45:
@@ -764,7 +798,8 @@ def correspond(ctx):
     many = [1001, 2300]
     for ci in range(ncases):
         try:
-            vs, cs, kind = session_many(rng, many[ci]) if ci < len(many) else gen_case(rng)
+            vs, cs, kind = (session_many(rng, many[ci]) if ci < len(many) else
+                            session_pairs(ci - len(many)) if ci < len(many) + N_PAIR_SESSIONS else gen_case(rng))
         except Exception as e:
             ctx.count("gen-error:" + core.err_name(e))
             continue
@@ -1088,6 +1123,8 @@ def search(ctx, why):
         try:
             if it < 2:
                 vs, cs, kind = session_many(rng, [1001, 2300][it])
+            elif it < 2 + N_PAIR_SESSIONS:
+                vs, cs, kind = session_pairs(it - 2)
             else:
                 vs, cs, kind = session_dsl(rng) if r < 0.5 else session_native(rng) if r < 0.75 else session_custom(rng)
         except Exception:
@@ -1129,7 +1166,7 @@ def search(ctx, why):
                 if bad:
                     add(bad[0], f"{name}: {bad[1]}", dict(base, backend=name, check="facts", facts=facts))
         # end to end with the Python mock solver vs brute force on the ORIGINAL trees
-        if kind in ("dsl", "native-avc", "native-div") and all(v.id == k for k, v in enumerate(vs)):
+        if kind in ("dsl", "native-avc", "native-div", "operator-pairs") and all(v.id == k for k, v in enumerate(vs)):
             bad = _e2e(rng, vs, cs, keys, rng.choice(NAMES))
             if bad:
                 add(bad[0], bad[1], dict(base, backend=bad[2], check="e2e"))
